@@ -709,7 +709,16 @@ func c01RaceParent(t *testing.T) {
 	// re-derived below from the detector's log, so only other failures of the child are fatal here
 	if out, err := cmd.CombinedOutput(); err != nil &&
 		(!strings.Contains(string(out), "race detected during execution of test") || strings.Contains(string(out), "panic:")) {
-		t.Fatalf("verif c01: race child failed: %v\n%s", err, out)
+		// the reason first AND last: the check keeps only the tail of a failing harness's output
+		var why []string
+		for _, l := range strings.Split(string(out), "\n") {
+			if strings.HasPrefix(l, "fatal error:") || strings.HasPrefix(l, "panic:") || strings.HasPrefix(l, "race:") ||
+				strings.Contains(l, "ThreadSanitizer") || strings.HasPrefix(l, "runtime:") || strings.HasPrefix(l, "SIG") ||
+				strings.HasPrefix(l, "[signal") {
+				why = append(why, l)
+			}
+		}
+		t.Fatalf("verif c01: race child failed: %v\n%s\nverif c01: race child failed because: %s", err, out, strings.Join(why, " | "))
 	}
 	total, known := 0, 0
 	var unknown []string
